@@ -25,8 +25,8 @@ Vars == {"lx", "ly", "lz"}
 VarSeq == <<"lx", "ly", "lz">>
 VARIABLES l, val, ids, nextId, bad, failed, seen
 
-Fresh       == {"copy-list", "subseq", "reverse", "butlast", "mapcar", "list", "append0", "append3"}
-Destructive == {"setcar", "setnth", "setelt", "rplaca", "rplacd", "nconc", "nreverse", "sort", "delete", "add"}
+Fresh       == {"copy-list", "subseq", "reverse", "butlast", "mapcar", "list", "append0", "append3", "reduce-key"}
+Destructive == {"setcar", "setnth", "setelt", "rplaca", "rplacd", "nconc", "nreverse", "sort", "delete", "delete-fe", "add"}
 Setters     == {"setcar", "setnth", "setelt", "rplaca"}
 \* push and pop change the place (the variable) they are given and nothing else
 PlaceOps    == {"push", "pop"}
@@ -41,6 +41,17 @@ Sort(s) == IF s = <<>> THEN <<>> ELSE Insert(s[1], Sort(Tail(s)))
 RECURSIVE MemberTail(_, _)
 MemberTail(a, s) == IF s = <<>> THEN <<>> ELSE IF s[1] = a THEN s ELSE MemberTail(a, Tail(s))
 Drop(k, s) == IF k >= Len(s) THEN <<>> ELSE SubSeq(s, k + 1, Len(s))
+Idx(s) == [i \in 1..Len(s) |-> i]
+Pick(s, keep) == [j \in 1..Len(keep) |-> s[keep[j]]]
+\* (remove a s :count 1) drops the first occurrence, with :from-end t the last one
+RemoveFirst(a, s) == LET h == SelectSeq(Idx(s), LAMBDA i : s[i] = a) IN IF h = <<>> THEN s ELSE Pick(s, SelectSeq(Idx(s), LAMBDA i : i # h[1]))
+RemoveLast(a, s) == LET h == SelectSeq(Idx(s), LAMBDA i : s[i] = a) IN IF h = <<>> THEN s ELSE Pick(s, SelectSeq(Idx(s), LAMBDA i : i # h[Len(h)]))
+\* remove-duplicates keeps the last of equal elements; union / set-difference are compared as sets (Judge)
+RemoveDup(s) == Pick(s, SelectSeq(Idx(s), LAMBDA i : \A j \in (i + 1)..Len(s) : s[j] # s[i]))
+RECURSIVE SumInc(_)
+SumInc(s) == IF s = <<>> THEN 0 ELSE s[1] + 1 + SumInc(Tail(s))
+Rng(s) == {s[i] : i \in 1..Len(s)}
+SetOps == {"union", "set-difference"}
 
 \* the value the language defines for the call, from the current contents
 Expect(e, v) ==
@@ -55,7 +66,12 @@ Expect(e, v) ==
     [] e.op \in {"reverse", "nreverse"} -> Rev(s)
     [] e.op = "butlast"               -> IF Len(s) <= 1 THEN <<>> ELSE SubSeq(s, 1, Len(s) - 1)
     [] e.op \in {"append", "nconc"}   -> s \o v[e.src2]
-    [] e.op \in {"remove", "delete"}  -> Remove(e.a, s)
+    [] e.op \in {"remove", "delete", "remove-fe", "delete-fe"}  -> Remove(e.a, s)
+    [] e.op = "remove-cnt"            -> RemoveFirst(e.a, s)
+    [] e.op = "remove-fecnt"          -> RemoveLast(e.a, s)
+    [] e.op = "substitute"            -> [i \in 1..Len(s) |-> IF s[i] = e.a THEN 9 ELSE s[i]]
+    [] e.op = "remove-dup"            -> RemoveDup(s)
+    [] e.op = "reduce-key"            -> <<e.a + SumInc(s)>>                \* (list (reduce #'+ src :key #'1+ :initial-value a))
     [] e.op = "cons"                  -> <<e.a>> \o s
     [] e.op = "cdr"                   -> Drop(1, s)
     [] e.op = "nthcdr"                -> Drop(e.k, s)
@@ -68,6 +84,7 @@ Expect(e, v) ==
 ResultIds(e, id, n) ==
   CASE e.op \in Fresh   -> {n}
     [] e.op = "append"  -> {n} \cup id[e.src2]
+    [] e.op \in SetOps  -> {n} \cup id[e.src] \cup id[e.src2]
     [] e.op = "nconc"   -> {n} \cup id[e.src] \cup id[e.src2]
     [] OTHER            -> {n} \cup id[e.src]
 
@@ -115,7 +132,10 @@ Judge(e, v0, id0, n0) ==
         ids |-> [x \in Vars |-> IF x = e.dst THEN ResultIds(e, id0, n0)
                                 ELSE IF free[x] THEN id0[x] ELSE id0[x] \cup id0[e.src]],
         nextId |-> n0 + 1,
-        why |-> (IF e.op # "rplacd" /\ e.ret # exp THEN <<Why(e, e.dst, "wrong-result")>> ELSE <<>>)
+        why |-> (IF e.op \in SetOps
+                 THEN (IF Rng(e.ret) # (IF e.op = "union" THEN Rng(v0[e.src]) \cup Rng(v0[e.src2]) ELSE Rng(v0[e.src]) \ Rng(v0[e.src2]))
+                       THEN <<Why(e, e.dst, "wrong-result")>> ELSE <<>>)
+                 ELSE IF e.op # "rplacd" /\ e.ret # exp THEN <<Why(e, e.dst, "wrong-result")>> ELSE <<>>)
                 \o (IF e.vars[e.dst] # e.ret THEN <<Why(e, e.dst, "dst-not-result")>> ELSE <<>>)
                 \o [i \in 1..Len(ch) |-> Why(e, ch[i], IF destr THEN "independent-list-changed"
                                                                  ELSE "changed-by-nondestructive")]]
